@@ -2752,6 +2752,9 @@ impl<T, A: BumpAllocatorTyped> BumpVec<T, A> {
 
             let new_ptr = match self.allocator.grow(old_ptr, old_layout, new_layout) {
                 Ok(ok) => ok.cast(),
+                // a claimed allocator is reported as such (an unwinding panic for the panicking api)
+                // instead of as an allocation failure (which aborts via `handle_alloc_error`)
+                Err(_) if self.allocator.is_claimed() => return Err(E::claimed()),
                 Err(_) => return Err(E::allocation(new_layout)),
             };
 
